@@ -288,7 +288,18 @@ class Gen(object):
 
     def scene(self):
         from collada import scene
-        nodes = [self.node(self.o['depth']) for _ in range(self.rng.randint(1 if self.o['schema'] else 0, 3))]
+        r = self.rng
+        nodes = [self.node(self.o['depth']) for _ in range(r.randint(1 if self.o['schema'] else 0, 3))]
+        # root nodes of a visual scene may instantiate each other: later ones (forward reference in the file) or earlier ones
+        for i in range(len(nodes)):
+            for j in range(len(nodes)):
+                if j > i and r.random() < 0.25:        # i -> j only for j > i keeps the instance graph acyclic
+                    kids = nodes[i].children
+                    pos = next((k for k, c in enumerate(kids) if type(c).__name__ in ('Node', 'ExtraNode')), len(kids))
+                    kids.insert(pos, scene.NodeNode(nodes[j]))
+                    nodes[i].xmlnode.insert(len(nodes[i].transforms) + pos, kids[pos].xmlnode)
+        if len(nodes) > 1 and r.random() < 0.5:
+            nodes.reverse()                            # so that the reference may also point backwards in the file
         return scene.Scene(self.uid('scene'), nodes)
 
 
